@@ -885,10 +885,39 @@ def probe_streams(cx, rng):
                     'fallback-name-collision: Algebra(3, start_index=6): x = 1*e8; x.e5 does not return 0 although e5 is no blade of the algebra')
 
 
+def large_algebra_stream(R, rng, tier):
+    """d >= 7 (tables of the algebra are built on demand there): the same rejections and round trips, direct oracle only"""
+    for d in ((7,) if tier == 'quick' else (7, 7, 8)):
+        spec = {'sig': [rng.choice((1, -1, 0)) for _ in range(d)]}
+        A = algs.make_impl(spec)
+        n1 = len(A.indices_for_grade[1])
+        for gs in [(1, 1), (2, 1), (d + 1,), (0, 0), (1, 3, 2)]:
+            for form, f in (('values+grades', lambda: A.multivector(list(range(1, 2 * n1 + 1)), grades=gs)),
+                            ('name+grades', lambda: A.multivector(name='x', grades=gs)),
+                            ('keys+grades', lambda: A.multivector(keys=(1, 2), values=[5, 6], grades=gs))):
+                R.count('malformed=invalid-grades-large'); R.case(('large', d, gs, form), True)
+                try:
+                    m = f()
+                    R.violation({'clause': 'invalid-grades', 'basis': 'default', 'graded': False, 'd': d},
+                                {'algebra': spec, 'ctor': 'multivector', 'form': form, 'inp': {'grades': list(gs)}},
+                                f'invalid-grades: Algebra({algs.describe(spec)}).multivector({form}, grades={gs}) is inconsistent input but builds keys {tuple(m.keys())[:8]}...')
+                except Exception:
+                    pass
+        vals = [rng.randint(1, 9) for _ in range(n1)]
+        R.count('form=large-roundtrip'); R.case(('large', d, 'roundtrip'), True)
+        m = A.multivector(vals, grades=(1,))
+        back = [getattr(m, nm) for nm in A.canon2bin if len(nm) == 2]
+        if back != vals or len(m.keys()) != n1:
+            R.violation({'clause': 'roundtrip', 'basis': 'default', 'graded': False, 'd': d},
+                        {'algebra': spec, 'ctor': 'multivector', 'form': 'values+grades', 'inp': {'values': vals, 'grades': [1]}},
+                        f'roundtrip: Algebra({algs.describe(spec)}).multivector({vals}, grades=(1,)) reads back {back}')
+
+
 def run(R, tier):
     warnings.filterwarnings('ignore')
     rng = R.rng
     cx = Ctx(R, tier)
+    large_algebra_stream(R, rng, tier)
     quick = tier == 'quick'
     # 1. every spelling of every blade, d <= 3 exhaustively, sampled above
     above = [rand_spec(rng, 5, graded=False) for _ in range(2 if quick else 30)]
